@@ -62,3 +62,19 @@ func (o *Overlay) VerifC06Pending() map[RosterID][]TreeID {
 	}
 	return m
 }
+
+// VerifC06Reset empties the tree store (cancelling scheduled removals) and the
+// table of parked tree descriptions, so that one server can be reused for
+// independent cases of the harness.
+func (o *Overlay) VerifC06Reset() {
+	ts := o.treeStorage
+	ts.Lock()
+	for id := range ts.cancellations {
+		ts.cancelDeletion(id)
+	}
+	ts.trees = make(map[TreeID]*Tree)
+	ts.Unlock()
+	o.pendingTreeLock.Lock()
+	o.pendingTreeMarshal = make(map[RosterID][]*TreeMarshal)
+	o.pendingTreeLock.Unlock()
+}
